@@ -39,6 +39,9 @@ type AbsCall struct {
 	Menc   AbsBlob `json:"menc"`
 	Media  AbsBlob `json:"media"`
 	MD     []AbsKV `json:"md"`
+	// assembled chunks (k = "Chunk")
+	Items []AbsCall `json:"items"`
+	Idx   string    `json:"idx"`
 }
 
 // AbsBehaviour is one exported behaviour.
@@ -99,7 +102,34 @@ func Concretise(id string, b AbsBehaviour, seed int64) wl.Workload {
 	if b.Cfg.OverrideLibrary {
 		w.Calls[0].Library = []byte(fmt.Sprintf("%-13s", "custom-lib"))
 	}
+	var conv func(c AbsCall) (wl.Call, bool)
+	conv = func(c AbsCall) (wl.Call, bool) {
+		switch c.K {
+		case "Schema", "AddSchema":
+			op := map[string]string{"Schema": "schema", "AddSchema": "addschema"}[c.K]
+			return wl.Call{Op: op, ID: scID[c.ID], Name: blob(c.Name), Enc: blob(c.Enc), Data: blob(c.Data)}, true
+		case "Channel", "AddChannel":
+			op := map[string]string{"Channel": "channel", "AddChannel": "addchannel"}[c.K]
+			return wl.Call{Op: op, ID: chID[c.ID], Schema: scID[c.Schema], Topic: blob(c.Topic), Menc: blob(c.Menc), MD: md(c.MD)}, true
+		case "Message":
+			return wl.Call{Op: "message", Ch: chID[c.Ch], Seq: uint32(c.Seq), Log: times[c.Log], Pub: times[c.Pub], Data: blob(c.Data)}, true
+		case "Chunk":
+			out := wl.Call{Op: "chunk", Idx: c.Idx}
+			for _, it := range c.Items {
+				if x, ok := conv(it); ok {
+					out.Inner = append(out.Inner, x)
+				}
+			}
+			return out, true
+		}
+		return wl.Call{}, false
+	}
 	for _, c := range b.Calls {
+		if c.K == "AddSchema" || c.K == "AddChannel" || c.K == "Chunk" {
+			x, _ := conv(c)
+			w.Calls = append(w.Calls, x)
+			continue
+		}
 		switch c.K {
 		case "Schema":
 			w.Calls = append(w.Calls, wl.Call{Op: "schema", ID: scID[c.ID], Name: blob(c.Name), Enc: blob(c.Enc), Data: blob(c.Data)})
